@@ -371,6 +371,7 @@ def write_evidence(ctx, rc, nviol):
         "modelled_and_proved_cases": ctx.modelled_cases,
         "searched_only_cases": ctx.searched_only_cases,
         "model_impl_disagreements": len(ctx.disagreements),
+        "disagreement_samples": [jsonable(d) for d in ctx.disagreements[:6] if d],
         "histogram": {str(k): v for k, v in sorted(ctx.hist.items(), key=lambda kv: str(kv[0]))},
         "generated_files": st.generated if st else {},
         "build_problems": ["%s: %s" % p for p in st.problems] if st else [],
